@@ -21,7 +21,8 @@ def FUEL : Nat := 1000
 def nats (l : List String) : Option (List Nat) := l.mapM String.toNat?
 
 def showState (rs : List String) (pcd : Pcd) (w : World Card) : String :=
-  ";".intercalate rs ++ s!" | {pcd.pni} | {hexList w.trace} | {hexList w.card.log} | {w.card.bn}"
+  let fl := match pcd.failed with | some e => s!"{e}" | none => "none"
+  ";".intercalate rs ++ s!" | {pcd.pni}/{fl} | {hexList w.trace} | {hexList w.card.log} | {w.card.bn}"
 
 /-- run a sequence of exchanges ("N" = presence check) on one world -/
 def runSeq (cfg : CardCfg) : List String → Pcd → World Card → List String → Option String
@@ -41,6 +42,24 @@ def mkCfg (p : List Nat) (sw : Bytes) : Option CardCfg :=
   | [chunk, wI, wA, wC, wtxm, rlen] =>
     some { chunk := chunk, wtxI := wI, wtxAck := wA, wtxChain := wC, wtxm := wtxm, app := tieApp rlen sw }
   | _ => none
+
+/-- a card that answers from a list, whatever it receives (`none` = mute); mute when the list is used up -/
+def scriptPeer : Peer (List (Option Bytes)) := ⟨fun st _ => match st with | [] => ([], none) | r :: rest => (rest, r)⟩
+
+def parseReplies (s : String) : Option (List (Option Bytes)) :=
+  if s = "." then some [] else
+  (s.splitOn ",").mapM fun t => if t = "x" then some none else (parseHex t).map some
+
+def runRaw : List String → Pcd → World (List (Option Bytes)) → List String → Option String
+  | [], pcd, w, acc =>
+    let fl := match pcd.failed with | some e => s!"{e}" | none => "none"
+    some (";".intercalate acc.reverse ++ s!" | {pcd.pni}/{fl} | {hexList w.trace}")
+  | c :: cs, pcd, w, acc =>
+    match parseHex c with
+    | none => none
+    | some cmd =>
+      let r := exchange scriptPeer FUEL pcd cmd w
+      runRaw cs r.2.1 r.1 (showPy toHex r.2.2 :: acc)
 
 def showPcd (p : Pcd) : String := s!"{p.miu} {p.nNak} {p.nAck} {p.pni}"
 
@@ -66,6 +85,12 @@ def handle (line : String) : String :=
         showState [showPy toHex r.2.2] r.2.1 r.1
       | none => "bad-op"
     | _, _, _, _, _, _, _ => "bad-op"
+  | ["raw", miu, nNak, nAck, replies, cmds] =>
+    match miu.toInt?, nats [nNak, nAck], parseReplies replies with
+    | some miu, some [nNak, nAck], some rs =>
+      (runRaw (cmds.splitOn ",") { pni := 0, miu := miu, nNak := nNak, nAck := nAck }
+        { card := rs, script := [], trace := [] } []).getD "bad-op"
+    | _, _, _ => "bad-op"
   | ["act", kind, h, maxSend] =>
     match parseHex h, maxSend.toNat? with
     | some b, some m =>
